@@ -569,6 +569,96 @@ def rule_skip_clean(chk, prog):
     return n
 
 
+def rule_path_prefix(chk, prog):
+    """K2-prefix: where a path is selected by comparing it with another path over a given length (strncmp with a run-time
+    length), a hit also needs the component to end there: on every way from the start of the search (the loop iteration) over
+    the equal edge of the comparison to `return true`, either the byte at a length is compared with '/' or NUL, or two
+    lengths are compared for equality.  Otherwise 'usr2/x' is selected by --subdir usr, and the code that cuts
+    strlen(prefix) + 1 bytes off the front of every selected name writes members under mangled names."""
+    n = 0
+    for f in prog.functions():
+        if f.decl or not f.unit.src.startswith(("bin/sqfs2tar/src/", "bin/tar2sqfs/src/")):
+            continue
+        f.build()
+        cmps = [c for c in f.calls() if norm_callee(c.callee) == "strncmp" and len(c.ops) >= 3 and not c.ops[2].is_const]
+        if not cmps:
+            continue
+        # blocks that decide on a component boundary
+        bnd = set()
+        for b in f.blocks:
+            if not b.insts or b.term.op != "br" or len(b.term.x["succ"]) != 2:
+                continue
+            conds = [b.term.ops[0]]
+            c0 = conds[0]
+            if c0.is_inst and c0.op == "phi":
+                conds = [v for v in c0.ops if not v.is_const]
+            for cond in conds:
+                if not (cond.is_inst and cond.op == "icmp" and cond.pred in ("eq", "ne")):
+                    continue
+                a, bb_ = cond.ops
+                for x, y in ((a, bb_), (bb_, a)):
+                    if y.is_const and y.is_int and y.sval in (47, 0):
+                        v = x
+                        while v.is_inst and v.op in ("zext", "sext", "trunc"):
+                            v = v.ops[0]
+                        if v.is_inst and v.op == "load" and v.ty == "i8":
+                            q = strip_casts(v.ops[0])
+                            if q.is_inst and q.op == "getelementptr" and any(el[0] in ("*", "[]") and not el[1].is_const
+                                                                          for el in q.x["gep"]):
+                                bnd.add(b)
+                lens = [any(v.is_inst and v.op == "call" and norm_callee(v.callee) == "strlen"
+                            for v in backward_slice(o, phi_control=False)) for o in cond.ops]
+                if all(lens):
+                    bnd.add(b)
+        true_rets = set()
+        for (v, b) in ret_sources(f):
+            v = strip_casts(v)
+            if v.is_const and v.is_int and v.sval != 0:
+                true_rets.add(b)
+        if not true_rets:
+            continue
+
+        def reach(starts, avoid):
+            seen, work = set(), list(starts)
+            while work:
+                b = work.pop()
+                if b in seen or b in avoid:
+                    continue
+                seen.add(b)
+                work.extend(b.succs)
+            return seen
+        for c in cmps:
+            # equal edge of the comparison
+            eq_succ = []
+            for u in f.uses.get(c, []):
+                if u.op == "icmp" and u.ops[1].is_const and u.ops[1].is_int and u.ops[1].sval == 0:
+                    for br in f.uses.get(u, []):
+                        if br.op == "br" and len(br.x["succ"]) == 2:
+                            eq_succ.append(br.x["succ"][0] if u.pred == "eq" else br.x["succ"][1])
+                        elif br.op == "phi":
+                            for br2 in f.uses.get(br, []):
+                                if br2.op == "br" and len(br2.x["succ"]) == 2:
+                                    eq_succ.append(br2.x["succ"][0] if u.pred == "eq" else br2.x["succ"][1])
+            if not eq_succ:
+                continue
+            n += 1
+            chk.analysed(f)
+            inst = "%s:strncmp@%d" % (f.name, c.line)
+            head = f.blocks[0]
+            for (h, body) in f.loops:
+                if c.bb in body:
+                    head = h
+            before = c.bb in reach([head], bnd) and c.bb not in bnd
+            after = bool(reach(eq_succ, bnd) & true_rets)
+            if before and after:
+                chk.violation("K2-prefix", inst, c, "a path is accepted because its first bytes equal a selected path, on a way on which "
+                              "neither the byte behind the prefix is compared with '/' or NUL nor the two lengths are compared: "
+                              "'usr2' is taken for something below 'usr'")
+            else:
+                chk.ok("K2-prefix", inst, c, "a hit of the length-limited comparison is completed by a test of the component boundary")
+    return n
+
+
 def rule_pax_len(chk, prog):
     """a PAX record '<len> key=value\\n' counts its own length field.  The number of digits of <len> depends on <len> itself,
     so it can only be found by iterating until the digit count no longer changes (98 + 2 = 100 needs 3 digits).  Rule: the
@@ -785,7 +875,7 @@ def run(chk):
         "well-formed output: header checksum computed last, data padded to records, sqfs2tar terminates and flushes the "
         "archive before it reports success, unsupported entries are recognised; names are funnelled through "
         "canonicalize_name (decided by C18); truncated input is an error in the archive layer (T1/T2); the PAX mask is "
-        "reset with the header (K9-mask). K11-skipclean: the header writer answers 'unsupported' (which sqfs2tar takes for 'skipped') only on paths on which nothing was written yet.")
+        "reset with the header (K9-mask). K11-skipclean: the header writer answers 'unsupported' (which sqfs2tar takes for 'skipped') only on paths on which nothing was written yet. K2-prefix: a path selected by a length-limited comparison with another path (--subdir) is accepted only together with a test of the component boundary.")
     chk.assumptions = ["field decoding of the dialects, sparse maps, link retargeting and idempotence are not decided"]
     from .c07 import validation_rule, mask_rule
     allp = load_program("all")
@@ -806,6 +896,8 @@ def run(chk):
     rule_unsupported(chk, s2t)
     rule_skip_clean(chk, s2t)
     chk.floor("K11-skipclean", 1)
+    rule_path_prefix(chk, s2t)
+    chk.floor("K2-prefix", 1)
     rule_layer_order(chk, s2t)
     rule_pax_len(chk, s2t)
     from ..strtrunc import run_strtrunc
